@@ -481,6 +481,8 @@ pub struct GenCfg {
     pub tl_in_batch_access: bool,
     /// probability (in 1/16) of a rejected duplicate-name registration attempt
     pub p_rejected: usize,
+    /// probability (in 1/16) that a dynamic system writes anything at all
+    pub write_chance: usize,
 }
 
 impl Default for GenCfg {
@@ -507,6 +509,7 @@ impl Default for GenCfg {
             batch_decl: true,
             tl_in_batch_access: true,
             p_rejected: 0,
+            write_chance: 16,
         }
     }
 }
@@ -551,7 +554,11 @@ pub fn gen_plan(src: &mut Src, cfg: &GenCfg) -> Plan {
 }
 
 fn gen_access(src: &mut Src, cfg: &GenCfg, universe: &[Res]) -> (Vec<Res>, Vec<Res>) {
-    let nw = src.pick(cfg.max_writes + 1).min(universe.len());
+    let nw = if cfg.write_chance >= 16 || src.chance(cfg.write_chance, 16) {
+        src.pick(cfg.max_writes + 1).min(universe.len())
+    } else {
+        0
+    };
     let mut writes: Vec<Res> = vec![];
     for _ in 0..nw {
         let r = universe[src.pick(universe.len())];
